@@ -8,6 +8,7 @@ NEXT, PUT_GLYPH8, PUT_SUBS8, PUT_COPY, INSERT, DELETE, ASSOC, CNTXT_ITEM = 25, 2
 ATTR_SET, ATTR_SET_SLOT = 35, 38
 PUSH_GLYPH_ATTR_OBS, PUSH_ISLOT_ATTR = 41, 46
 POP_RET, RET_ZERO, RET_TRUE, IATTR_SET = 48, 49, 50, 51
+PUSH_FEAT, SET_FEAT = 43, 66
 SLAT_ADVX, SLAT_ATTTO, SLAT_ATTX, SLAT_SHIFTX, SLAT_USER = 0, 2, 3, 20, 55
 GATTR_TEST = 5          # the glyph attribute constraints may test (GAttr in the spec)
 
@@ -41,6 +42,8 @@ def compile_action(rule):
             b += push(it["user2"]) + [IATTR_SET, SLAT_USER, 1]
         if it["shift"] >= 0:
             b += push(it["shift"]) + [ATTR_SET, SLAT_SHIFTX]
+        if it.get("sf", 0) > 0:
+            b += push(it["sv"]) + [SET_FEAT, it["sf"] - 1, 0]
         if it["att"] >= 0:
             b += push(it.get("attref", -1)) + [ATTR_SET_SLOT, SLAT_ATTTO] + push(it["att"]) + [ATTR_SET, SLAT_ATTX]
         b += [NEXT]
@@ -56,6 +59,8 @@ def compile_constraint(con):
         return b""
     if con["kind"] == "gattr":
         body = [PUSH_GLYPH_ATTR_OBS, GATTR_TEST, 0] + push(con["val"]) + [EQUAL]
+    elif con["kind"] == "feat":
+        body = [PUSH_FEAT, con["f"] - 1, 0] + push(con["val"]) + [EQUAL]
     elif con["kind"] == "user2":
         body = [PUSH_ISLOT_ATTR, SLAT_USER, 0, 1] + push(con["val"]) + [EQUAL]
     else:
@@ -63,7 +68,7 @@ def compile_constraint(con):
     return bytes([CNTXT_ITEM, con["item"], len(body)] + body + [POP_RET])
 
 
-def font_model(prog, classes, adv, gattr, rtl, nlinear=None):
+def font_model(prog, classes, adv, gattr, rtl, nlinear=None, nfeat=0):
     """classes: list of lists (as in the spec, glyph ids); adv/gattr: dict or list indexed by gid (0..NG)."""
     ng = len(adv) - 1
     glyphs = [{"adv": adv[g], "attrs": ({GATTR_TEST: gattr[g]} if gattr[g] else {})} for g in range(ng + 1)]
@@ -74,4 +79,4 @@ def font_model(prog, classes, adv, gattr, rtl, nlinear=None):
             rules.append({"pre": r["pre"], "ctx": [c - 1 for c in r["ctx"]], "con": compile_constraint(r["con"]), "act": compile_action(r)})
         passes.append({"kind": p["kind"], "maxloop": 5, "rules": rules})
     return {"upem": 1000, "rtl": rtl, "nuser": 2, "glyphs": glyphs, "cmap": {97 + g - 1: g for g in range(1, ng + 1)},
-            "classes": [list(c) for c in classes], "nlinear": len(classes) if nlinear is None else nlinear, "passes": passes}
+            "classes": [list(c) for c in classes], "nlinear": len(classes) if nlinear is None else nlinear, "passes": passes, "nfeat": nfeat}
